@@ -1045,7 +1045,9 @@ def stack_files(fs, stackdim, coordkeys=None):
                             'without stackable dimension; first value ' +
                             'retained')
                 else:
-                    p2p.addVariable(tmpf, f, varkey, data=True)
+                    # copyVariable keeps the mask; addVariable would store
+                    # the filled values of a masked variable
+                    f.copyVariable(var, key=varkey, withdata=True)
             else:
                 if varkey not in f.variables.keys():
                     axisi = list(var.dimensions).index(stackdim)
